@@ -12,7 +12,7 @@
                           inode) in name order, an enc whose inode is already placed is not placed again (b44c076: but
                           still runs the 0xef rule with the inode's extent), platform 0xef ->
                           update_efi (first, when the hybrid has efi) / update_mac (second, when it has mac), platform 0
-                          -> update_rba, any other platform -> nothing.  update_efi / update_mac raise
+                          -> update_rba (9b70343: only the initial entry's enc), any other platform -> nothing.  update_efi / update_mac raise
                           on a hybrid without efi / mac: the loop stops there with the hybrid object
                           partly updated ([HWrite] then answers Late).
                           The values are pushed ONLY here: the hybrid object keeps what the last
@@ -59,7 +59,7 @@ Definition with_hyb (s : hstate) (y : option hybrid) : hstate := {| hb := hb s; 
 Definition num_efi_entries (c : et_catalog) : Z :=
   fold_left (fun n h => if h_platform_id h =? 239 then n + zlen (h_entries h) else n) (c_sections c) 0.
 
-Definition hstep_add_hybrid (s : hstate) (part_entry mbr_id part_offset gsect gheads : Z)
+Definition hstep_add_hybrid_gen (fp : bool) (s : hstate) (part_entry mbr_id part_offset gsect gheads : Z)
            (part_type : option Z) (mac : bool) (efi : option bool) (g : GUIDS * GUIDS) : hstate * outcome :=
   match bboot (hb s) with
   | None => (s, Ref)                        (* 'The ISO must have an El Torito Boot Record ...' *)
@@ -74,6 +74,8 @@ Definition hstep_add_hybrid (s : hstate) (part_entry mbr_id part_offset gsect gh
           let n := num_efi_entries (bcat b) in
           if efi && (n <? 1) then (s, Ref) else
           if mac && (n <? 2) then (s, Ref) else
+          (* d0ed30b: 'The partition entry can only be between 1 and 4, inclusive' *)
+          if fp && ((part_entry <? 1) || (4 <? part_entry)) then (s, Ref) else
           let part_type := match part_type with
                            | Some p => p
                            | None => if mac || efi then 0 else 23
@@ -82,6 +84,9 @@ Definition hstep_add_hybrid (s : hstate) (part_entry mbr_id part_offset gsect gh
           | [] => (s, Ref)                                          (* unreachable *)
           | i :: _ =>
               if negb (mem i (hsigs s)) then (s, Ref)               (* 'Invalid signature on boot file' *)
+              (* d0ed30b, IsoHybrid.new (after its geometry / part_type refusals, which refuse as
+                 well): 'Partition entry 2 is taken by the EFI partition and entry 3 by the Mac ...' *)
+              else if fp && ((efi && (part_entry =? 2)) || (mac && (part_entry =? 3))) then (s, Ref)
               else
                 match hy_new efi mac part_entry mbr_id part_offset gsect gheads part_type (fst g) (snd g) with
                 | None => (s, Ref)                                  (* IsoHybrid.new refuses *)
@@ -90,6 +95,8 @@ Definition hstep_add_hybrid (s : hstate) (part_entry mbr_id part_offset gsect gh
           end
       end
   end.
+
+Definition hstep_add_hybrid := hstep_add_hybrid_gen true.
 
 (* ---- the hybrid part of _reshuffle_extents --------------------------------------------------- *)
 
@@ -136,6 +143,10 @@ Definition hy_update_rba (y : hybrid) (ext : Z) : hybrid :=
    entry (a boot file with several names) are handled once, the first in sort order.  Without
    b44c076 the later encs of an entry were skipped anyway (their inode is placed), so the test is
    applied under every switch.
+   [fp] = true also selects the later repairs d0ed30b (add_isohybrid refuses part_entry outside
+   1..4, entry 2 with efi, entry 3 with mac) and 9b70343 (update_rba only for the enc of the
+   INITIAL entry -- index 0 --, placed or not, when its platform is 0; before: for every platform-0
+   enc that is not placed).
    The current tree is [true true]; the other combinations are kept for the *_old witnesses. *)
 Definition push_step_gen (fx fp : bool) (s : bstate) (st : pst) (e : henc) : pst :=
   if negb (p_ok st) then st else
@@ -165,7 +176,8 @@ Definition push_step_gen (fx fp : bool) (s : bstate) (st : pst) (e : henc) : pst
       end
     else if fx then mk_pst ents seen (p_nefi st + 1) (p_hy st) true
     else fail                               (* 'Only expected two EFI sections' (old) *)
-  else if (pf =? 0) && negb placed then mk_pst ents seen (p_nefi st) (hy_update_rba (p_hy st) ext) true
+  else if (pf =? 0) && (if fp then Nat.eqb k 0 else negb placed)
+       then mk_pst ents seen (p_nefi st) (hy_update_rba (p_hy st) ext) true
   else mk_pst ents seen (p_nefi st) (p_hy st) true.
 
 Definition push_gen (fx fp : bool) (s : bstate) (y : hybrid) : pst :=
@@ -280,7 +292,7 @@ Definition hstep_gen (fx fp : bool) (s : hstate) (o : hop) : hstate * outcome :=
       | o' => (with_b s (fst r), o')
       end
   | HAddHybrid pe id po gs gh pt mac efi g =>
-      if bwreck (hb s) then (s, Ref) else hstep_add_hybrid s pe id po gs gh pt mac efi g
+      if bwreck (hb s) then (s, Ref) else hstep_add_hybrid_gen fp s pe id po gs gh pt mac efi g
   | HRmHybrid => (with_hyb s None, Acc)
   | HWrite => hstep_write_gen fx fp s
   end.
